@@ -9,3 +9,20 @@ theorem alloc_shape : Generated.allocShape =
     ["id:=p.next&0x7fffffff", "p.next++", "if id==0 continue", "if p.used[id];ok continue", "p.used[id]=<*ast.StructType>{…}", "return id"] := by decide
 
 end Obl.Core
+
+namespace Obl.Core
+
+/-- dialer: the first Dial marks it active and starts from the minimum; a failed synchronous Dial clears `active`;
+    after a failed attempt the timer is armed with the *current* delay and the delay then grows by a factor in
+    [1.1, 1.5] only when a maximum is set, capped at it; a lost pipe re-arms with the current delay; a successful
+    attach resets it to the minimum; Close stops the timer and marks the dialer closed; dial() checks `closed` first -/
+theorem dialer_facts : Generated.dialerFacts =
+    ["dial: if d.closed", "dial: if !redial", "dial: d.active=false", "dial: minfact:=float64(1.1)", "dial: maxfact:=float64(1.5)",
+     "dial: actfact:=rand.Float64()*(maxfact-minfact)+minfact", "dial: rtime:=d.reconnTime", "dial: if d.reconnMaxTime!=0",
+     "dial: d.reconnTime=time.Duration(actfact*float64(d.reconnTime))", "dial: if d.reconnTime>d.reconnMaxTime",
+     "dial: d.reconnTime=d.reconnMaxTime", "dial: d.redialer=time.AfterFunc(rtime,d.redial)",
+     "pipeClosed: time.AfterFunc(d.reconnTime,d.redial)", "pipeConnected: d.reconnTime=d.reconnMinTime",
+     "Close: if d.closed", "Close: if d.redialer!=nil", "Close: d.redialer.Stop()", "Close: d.closed=true",
+     "Dial: if d.active", "Dial: if d.closed", "Dial: d.active=true", "Dial: d.reconnTime=d.reconnMinTime"] := by decide
+
+end Obl.Core
